@@ -8,6 +8,8 @@ H(n, k, v) == [name |-> n, kind |-> k, value |-> v]
 W1 == <<"2024-03-10T12:00:00Z", "2024-03-10T13:00:00Z">>
 W2 == <<"2024-03-11T00:00:00Z", "">>
 TW == <<"12:00:00", "13:00:00">>
+\* W1 once more, its bounds written with UTC offsets
+W1off == <<"2024-03-10T14:00:00+02:00", "2024-03-10T08:00:00-05:00">>
 
 \* ---- single-trigger variants: each is a function from a base rule to a rule ----------------
 VScheme(b) == {[b EXCEPT !.scheme = s] : s \in {"http", "https"}}
@@ -29,7 +31,7 @@ VHdrs(b) == {[b EXCEPT !.hdrs = <<H("X-K", k, "v")>>] : k \in HdrKinds}
 VDates(b) == {[b EXCEPT !.dates = <<W1>>], [b EXCEPT !.dates = <<W2>>], [b EXCEPT !.dates = <<W1, W2>>],
               [b EXCEPT !.times = <<TW>>], [b EXCEPT !.wds = <<"Sun">>], [b EXCEPT !.wds = <<"Mon", "Tue">>],
               [b EXCEPT !.dates = <<W1>>, !.times = <<TW>>], [b EXCEPT !.times = <<TW>>, !.wds = <<"Mon">>],
-              [b EXCEPT !.dates = <<<<"", "2024-03-10T12:00:00Z">>>>]}
+              [b EXCEPT !.dates = <<<<"", "2024-03-10T12:00:00Z">>>>], [b EXCEPT !.dates = <<W1off>>]}
 VPath(b) == {[b EXCEPT !.path = p] : p \in {<<"static", "/A">>, <<"static", "/b">>, <<"dyn", "/x/@m">>, <<"dyn", "/x/@m/y">>, <<"dyn", "/X/@m">>, <<"dyn", "/X/@m/y">>, <<"dyn", "/X/y/@m">>}}
 Singles(b) == {b} \cup VScheme(b) \cup VHost(b) \cup VIps(b) \cup VMethods(b) \cup VHdrs(b) \cup VDates(b) \cup VPath(b)
 \* multi-layer combinations
@@ -51,7 +53,7 @@ QuickPick(b) == {b, [b EXCEPT !.scheme = "https"], [b EXCEPT !.host = <<"static"
                  [b EXCEPT !.hdrs = <<H("X-K", "is_not_equal_to", "v")>>], [b EXCEPT !.hdrs = <<H("X-K", "contains", "v"), H("X-J", "is_not_defined", "")>>],
                  [b EXCEPT !.hdrs = <<H("X-K", "match_regex", "k-@m")>>], [b EXCEPT !.hdrs = <<H("X-K", "match_regex", "K-@m")>>],
                  [b EXCEPT !.hdrs = <<H("X-J", "is_defined", ""), H("X-K", "is_defined", "")>>], [b EXCEPT !.hdrs = <<H("X-K", "is_defined", "")>>],
-                 [b EXCEPT !.dates = <<W1>>], [b EXCEPT !.times = <<TW>>, !.wds = <<"Mon">>],
+                 [b EXCEPT !.dates = <<W1>>], [b EXCEPT !.dates = <<W1off>>], [b EXCEPT !.times = <<TW>>, !.wds = <<"Mon">>],
                  \* a weekday list that is a prefix of another one, next to the same time window
                  [b EXCEPT !.times = <<TW>>, !.wds = <<"Mon", "Tue">>],
                  \* two date groups that share their last condition (the weekday) and differ by an earlier one
@@ -74,7 +76,9 @@ PoolPaths == { Base("r1"), Base("r4"), [Base("r3") EXCEPT !.path = <<"dyn", "/x/
 PoolPaths2 == { [Base("r1") EXCEPT !.hdrs = <<H("X-K", "is_defined", "")>>],
                 [Base("r4") EXCEPT !.hdrs = <<H("X-J", "is_defined", ""), H("X-K", "is_defined", "")>>],
                 [Base("r2") EXCEPT !.hdrs = <<H("X-K", "is_defined", "")>>],      \* the same condition set as r1
-                [Base("r2") EXCEPT !.dates = <<W1>>], [Base("r3") EXCEPT !.times = <<TW>>, !.wds = <<"Sun">>] }
+                [Base("r2") EXCEPT !.dates = <<W1>>],
+                \* (this one also sits in a network bucket that holds nothing but a rule with an EXCLUDED method)
+                [Base("r3") EXCEPT !.times = <<TW>>, !.wds = <<"Sun">>, !.ips = <<<<"in", "10.0.0.0/8">>>>, !.methods = <<"GET">>, !.excl = TRUE] }
 \* insertion orders (VIEW ViewOrder): dynamic paths and hosts whose place in the regex trees depends on the order
 PoolOrders == { [Base("r1") EXCEPT !.path = <<"dyn", "/x/@m">>], [Base("r2") EXCEPT !.path = <<"dyn", "/x/@m/y">>],
                 [Base("r3") EXCEPT !.path = <<"dyn", "/X/@m">>], [Base("r4") EXCEPT !.path = <<"dyn", "/X/y/@m">>],
